@@ -508,6 +508,8 @@ impl Factors {
         };
         let mut fP_exp_el_cgn_A = RenNrenCo2::default();
         for (carrier, used_t) in used {
+            #[cfg(feature = "verif_hooks")]
+            crate::verif_hooks::observe("wfactors::compute_cgn_exp_fP_A::fuel", carrier.to_string());
             if only_nearby && !carrier.is_nearby() {
                 continue;
             }
